@@ -188,15 +188,22 @@ class Unit:
         self.lit = None
 
 
-def fields_for(rng, tykey, arity, named):
+def unraw(name):
+    return name[2:] if name.startswith("r#") else name
+
+
+def fields_for(rng, tykey, arity, named, raw_ok=False):
     """Field list with the target at a random position; other fields are `u8`/`i32` fillers."""
     pos = rng.randrange(arity)
     fs = []
     fillers = ["a", "b"]
     for i in range(arity):
         if i == pos:
-            nm = "x" if named else "_%d" % i
-            fs.append((nm, "x" if named else str(i), tykey))
+            nm = "_%d" % i
+            if named:
+                # raw identifiers are referred to by their unraw name inside the literal (tests/display.rs `mod raw`)
+                nm = rng.choice(("r#type", "r#thing", "r#fn")) if raw_ok and rng.random() < 0.2 else "x"
+            fs.append((nm, nm if named else str(i), tykey))
         else:
             nm = fillers.pop(0) if named else "_%d" % i
             fs.append((nm, nm if named else str(i), rng.choice(("u8", "i32"))))
@@ -221,11 +228,11 @@ def make_arg(rng, form, tykey, fname, member):
     if form == "fmtargs":
         # `fmt::Arguments` ignores every flag (the documented way of suppressing transparency): such a
         # pass-through case holds trivially, it is generated because the documentation shows it
-        return "format_args!(\"{%s:?}\")" % fname, "format_args!(\"{fr:?}\")", TXT
+        return "format_args!(\"{%s:?}\")" % unraw(fname), "format_args!(\"{fr:?}\")", TXT
     raise AssertionError(form)
 
 
-def pick_container(rng, u, tykey, allow_unit=False, want_named=None, arity=None, generic_ok=False):
+def pick_container(rng, u, tykey, allow_unit=False, want_named=None, arity=None, generic_ok=False, raw_ok=False):
     if tykey is None:
         u.kind = rng.choice(("unit", "tuple", "named")) if allow_unit else rng.choice(("tuple", "named"))
         if u.kind == "unit":
@@ -235,7 +242,7 @@ def pick_container(rng, u, tykey, allow_unit=False, want_named=None, arity=None,
     named = rng.random() < 0.5 if want_named is None else want_named
     u.kind = "named" if named else "tuple"
     arity = arity or rng.choice((1, 1, 2, 3))
-    u.fields, u.target = fields_for(rng, tykey, arity, named)
+    u.fields, u.target = fields_for(rng, tykey, arity, named, raw_ok)
     u.generic = generic_ok and rng.random() < 0.25
 
 
@@ -251,7 +258,7 @@ def gen_placeholder_unit(rng, D, ref, argform, spec="", letter_override=None, al
             fname_traits = usable(FT[tykey].traits, FT[tykey].blind)
             a_attr = a_ref = None
         else:
-            pick_container(rng, u, tykey, allow_unit=(argform == "const"), generic_ok=(argform == "ident"))
+            pick_container(rng, u, tykey, allow_unit=(argform == "const"), generic_ok=(argform == "ident"), raw_ok=True)
             tf = u.fields[u.target] if u.target is not None else (None, None, None)
             a_attr, a_ref, fname_traits = make_arg(rng, argform, tf[2], tf[0], tf[1])
         if letter_override in ("x?", "X?") and "Debug" not in fname_traits:
@@ -266,9 +273,9 @@ def gen_placeholder_unit(rng, D, ref, argform, spec="", letter_override=None, al
         P = D if (D in fname_traits and rng.random() < 0.35) else rng.choice(fname_traits)
         letter = LET[P]
     if ref == "name":
-        pick_container(rng, u, tykey, generic_ok=True)
+        pick_container(rng, u, tykey, generic_ok=True, raw_ok=True)
         tf = u.fields[u.target]
-        arg_in_lit, args = tf[0], []
+        arg_in_lit, args = unraw(tf[0]), []
         u.ref = "*fr"       # "except when used directly in the format string": the field itself
         u.form = "name"
     else:
@@ -302,7 +309,7 @@ def gen_attrfree(rng, D):
     tykey = rng.choice(types_with(D))
     named = rng.random() < 0.5
     u.kind = "named" if named else "tuple"
-    u.fields, u.target = fields_for(rng, tykey, 1, named)
+    u.fields, u.target = fields_for(rng, tykey, 1, named, raw_ok=True)
     u.generic = rng.random() < 0.3
     u.P, u.ref, u.form, u.mode = D, "*fr", "attrfree", "pt"
     return u
